@@ -74,7 +74,7 @@ def _wind(rng, shape):
 
 
 def ww3(rng, with_wind=True, with_depth=True, lonlat_time=True, order=None):
-    nt, ns, nf, nd = int(rng.integers(1, 4)), int(rng.integers(1, 4)), int(rng.integers(3, 12)), int(rng.choice([8, 12, 24, 36]))
+    nt, ns, nf, nd = int(rng.integers(1, 4)), int(rng.integers(1, 4)), int(rng.integers(3, 12)), int(rng.choice([8, 12, 24, 36, 7, 9, 15, 25, 35]))
     f = _freqs(rng, nf)
     th_from, dd = _dirs(rng, nd, order or str(rng.choice(["ww3", "ascending", "rolled"])))
     E = truth_spectra(rng, f, th_from, (nt, ns))
@@ -106,7 +106,7 @@ def ww3(rng, with_wind=True, with_depth=True, lonlat_time=True, order=None):
 
 
 def ncswan(rng, with_wind=True, with_depth=True, lonlat_time=False, order=None, negative_dirs=None):
-    nt, ns, nf, nd = int(rng.integers(1, 4)), int(rng.integers(1, 4)), int(rng.integers(3, 12)), int(rng.choice([8, 12, 24, 36]))
+    nt, ns, nf, nd = int(rng.integers(1, 4)), int(rng.integers(1, 4)), int(rng.integers(3, 12)), int(rng.choice([8, 12, 24, 36, 7, 9, 15, 25, 35]))
     f = _freqs(rng, nf)
     th_from, dd = _dirs(rng, nd, order or str(rng.choice(["ascending", "descending", "rolled"])))
     E = truth_spectra(rng, f, th_from, (nt, ns))
@@ -137,7 +137,7 @@ def ncswan(rng, with_wind=True, with_depth=True, lonlat_time=False, order=None, 
 
 
 def wwm(rng, with_wind=True, with_depth=True, order=None):
-    nt, ns, nf, nd = int(rng.integers(1, 4)), int(rng.integers(1, 4)), int(rng.integers(3, 12)), int(rng.choice([8, 12, 24, 36]))
+    nt, ns, nf, nd = int(rng.integers(1, 4)), int(rng.integers(1, 4)), int(rng.integers(3, 12)), int(rng.choice([8, 12, 24, 36, 7, 9, 15, 25, 35]))
     if rng.random() < 0.3:
         nf = nd          # square spectral grids: a factor paired with the wrong axis does not fail on shape
     f = _freqs(rng, nf)
@@ -173,10 +173,18 @@ ERA5_FREQS = 0.03453 * 1.1 ** np.arange(30)
 ERA5_DIRS_TO = np.arange(7.5, 360, 15.0)       # native direction index j -> going-to direction
 
 
-def era5(rng, missing=True):
+def era5(rng, missing=True, custom=False):
     nt, nlat, nlon = int(rng.integers(1, 3)), int(rng.integers(1, 4)), int(rng.integers(1, 4))
     f = ERA5_FREQS
     th_from = (ERA5_DIRS_TO + 180.0) % 360.0
+    if custom:
+        # the documented reader options freqs= / dirs=: the caller states the physical values of the bin numbers
+        # (another model resolution, or the standard size with other values)
+        nf_, nd_ = (30, 24) if rng.random() < 0.5 else (int(rng.integers(5, 37)), int(rng.choice([12, 18, 24, 36])))
+        f = float(rng.uniform(0.03, 0.05)) * float(rng.uniform(1.05, 1.12)) ** np.arange(nf_)
+        dd_ = 360.0 / nd_
+        th_from = (float(rng.choice([0.0, dd_ / 2, 5.0])) + dd_ * np.arange(nd_) + 180.0) % 360.0
+    NF, ND = len(f), len(th_from)
     E = truth_spectra(rng, f, th_from, (nt, nlat, nlon))
     E = np.where(E < 1e-8, 0.0, E)
     if missing:
@@ -192,11 +200,13 @@ def era5(rng, missing=True):
     lab = str(rng.choice(["one_based", "one_based", "zero_based", "unlabelled"]))
     if lab != "unlabelled":
         o = 1 if lab == "one_based" else 0
-        ds = ds.assign_coords(frequency=np.arange(o, 30 + o), direction=np.arange(o, 24 + o))
+        ds = ds.assign_coords(frequency=np.arange(o, NF + o), direction=np.arange(o, ND + o))
     vals = np.moveaxis(ds.d2fd.values.astype("float64"), (1, 2), (3, 4))
     Et = np.where(np.isnan(vals), 0.0, 10 ** vals / R2D)
-    truth = {"freq": f, "dir": th_from, "E": Et, "lead": ["time", "lat", "lon"], "dd": 15.0}
-    truth["native_variance"] = (np.where(np.isnan(vals), 0.0, 10 ** vals) * _df(f)[:, None] * np.radians(15.0)).sum((-1, -2))
+    truth = {"freq": f, "dir": th_from, "E": Et, "lead": ["time", "lat", "lon"], "dd": 360.0 / ND}
+    truth["native_variance"] = (np.where(np.isnan(vals), 0.0, 10 ** vals) * _df(f)[:, None] * np.radians(360.0 / ND)).sum((-1, -2))
+    if custom:
+        truth["reader_options"] = {"freqs": [float(x) for x in f], "dirs": [float(x) for x in th_from]}
     return ds, truth
 
 
